@@ -16,7 +16,9 @@ from gvmon.gen import genemodels as G
 from gvmon.monitors import contracts, sqltrace
 
 RULE = ("(a) pairs of (old file database from one generated GFF3/GTF annotation, new GFF3/GTF input with disjoint or "
-        "overlapping ids) x force in {False, True}; (b) file databases (GFF3 and GTF gene models) reopened with FeatureDB and "
+        "overlapping ids) x force in {False, True}, also with the existing database at a path whose directory / file name contains "
+        "characters special to URI, shell, SQL or format-string layers (percent escapes, ?, #, blanks, quotes, non-ASCII; put there by "
+        "create_db or moved there; no-force attempt first or force only); (b) file databases (GFF3 and GTF gene models) reopened with FeatureDB and "
         "driven by random sequences of 40 read-style calls (look-up, iteration with filters/ordering, children, parents, "
         "region, interfeatures, create_introns, create_splice_sites, merge, children_bp, bed12, counts, featuretypes, seqids, "
         "iter_by_parent_childs, schema, directives) with generated arguments, every generator drained; non-trivial = call "
@@ -31,7 +33,10 @@ REQUIRED = ["no-force attempts refused", "force imports compared with solitary i
             "generators left suspended after their first item", "attempts with the new data given as a URL",
             "files re-dumped right after being opened", "databases with an update history (several meta rows) opened",
             "read sequences on a GTF database of more than 5000 rows",
-            "attempts after set_pragmas() on a handle to another database", "journal mode and side files compared after a refused import"]
+            "attempts after set_pragmas() on a handle to another database", "journal mode and side files compared after a refused import",
+            "no-force attempts refused at a path with special characters",
+            "force imports at a path with special characters compared with solitary import",
+            "forced databases reopened through FeatureDB at a path with special characters"]
 ASSUMPTIONS = [
     "'content untouched' is judged on the independent content dump (byte identity of the file is recorded as a monitor, not demanded)",
     "exceptions raised by a read-style call (e.g. bed12 on non-spanning blocks) are not this property's concern; the call still must not write",
@@ -75,6 +80,8 @@ def execute(ctx, case):
     try:
         if case["kind"] == "pair":
             pair(ctx, case)
+        elif case["kind"] == "pair_path":
+            pair_path(ctx, case)
         else:
             reads(ctx, case)
     finally:
@@ -217,6 +224,136 @@ def pair(ctx, case):
         for p in (dbfn, solo, dbfn + "-wal", dbfn + "-shm", dbfn + "-journal"):
             if os.path.exists(p):
                 os.unlink(p)
+
+
+# Fragments a database path may legally contain on a POSIX file system and that mean something to SOME layer a path can
+# pass through (URI syntax and percent-escapes, query/fragment markers, shell/glob/SQL/format metacharacters, blanks,
+# non-ASCII).  The property speaks of "a path that already holds a database" - whatever that path is spelled like.
+PATH_FRAGMENTS = ["%41", "%20", "%2F", "%2e", "%", "%%", "%zz", "%s", "%d", "?", "#", "?mode=ro", "?x=1&y=2", " ", "  ", "'", '"',
+                  "é", "日本", "*", "[x]", ";", "&", "=", "+", "$HOME", "~", "\\", ":", "..", "-", "{0}", "(1)", ",", "@", "!", "|"]
+
+
+def odd_name(rng, ext):
+    return rng.choice(["a", "annot", "db", "-", "~", "."]) + "".join(
+        rng.choice(PATH_FRAGMENTS) + rng.choice(["", "x", "B", "7"]) for _ in range(rng.randrange(1, 4))) + ext
+
+
+def dump_any(path):
+    """Independent read-only dump of the database at exactly `path`, whatever characters the path contains."""
+    from urllib.parse import quote
+    conn = sqltrace.ORIG_CONNECT("file:%s?mode=ro" % quote(os.path.abspath(path)), uri=True)
+    try:
+        return dbdump.dump_conn(conn)
+    finally:
+        conn.close()
+
+
+def tree_listing(top):
+    out = []
+    for d, _, files in os.walk(top):
+        out.extend(os.path.relpath(os.path.join(d, f), top) for f in files)
+    return sorted(out)
+
+
+def pair_path(ctx, case):
+    """(old database, new input) x force where the existing database sits at a path whose directory and/or file name
+    contains characters that are special to some layer (see PATH_FRAGMENTS).  The old database got there either by
+    create_db itself or by being moved there by the user; the no-force attempt may be skipped (force only)."""
+    import shutil
+    import gffutils
+
+    old_text = annotation(case["old_seed"], case["old_fmt"], prefix="o")
+    new_text = annotation(case["new_seed"], case["new_fmt"], prefix="n")
+    top, solo = ctx.tmp(".dir"), ctx.tmp(".solo.db")
+    where = os.path.join(top, case["dirname"]) if case["dirname"] else top
+    dbfn = os.path.join(where, case["fname"])
+    try:
+        os.makedirs(where)
+        made_in_place = False
+        if case["old_made"] == "in place":
+            try:
+                gffutils.create_db(old_text, dbfn, from_string=True).conn.close()
+                made_in_place = os.path.exists(dbfn) and tree_listing(top) == [os.path.relpath(dbfn, top)]
+            except Exception:
+                pass
+            if not made_in_place:
+                # creating a FRESH database is not this property's subject: start over with a moved one
+                ctx.mon("fresh creation at a path with special characters failed or went elsewhere (not judged here)")
+                shutil.rmtree(top)
+                os.makedirs(where)
+        if not made_in_place:
+            plain = ctx.tmp(".plain.db")
+            gffutils.create_db(old_text, plain, from_string=True).conn.close()
+            os.replace(plain, dbfn)
+        ctx.mon("existing databases at a path with special characters in the %s name" % ("directory" if case["dirname"] else "file"))
+        before, listing0 = dump_any(dbfn), tree_listing(top)
+        old_ids = set(f["id"] for f in before["features"])
+        if not case["force_only"]:
+            raised = None
+            try:
+                db = gffutils.create_db(new_text, dbfn, from_string=True, **({} if case["force_kw"] == "absent" else {"force": False}))
+                db.conn.close()
+            except Exception as ex:
+                raised = ex
+            if raised is None:
+                ctx.violation(case, {"why": "create_db on an existing database did not raise without force", "path": dbfn,
+                                     "files_before": listing0, "files_after": tree_listing(top)})
+                return
+            del raised
+            if not os.path.exists(dbfn):
+                ctx.violation(case, {"why": "a refused create_db removed the existing database file", "path": dbfn})
+                return
+            d = dbdump.diff(before, dump_any(dbfn))
+            if d:
+                ctx.violation(case, {"why": "a refused create_db changed the existing database", "diff": d, "path": dbfn})
+                return
+            ctx.mon("no-force attempts refused at a path with special characters")
+            ctx.mon("directory listing unchanged after refused import" if tree_listing(top) == listing0 else
+                    "directory listing changed after refused import (recorded, not demanded)")
+        if case["force"] or case["force_only"]:
+            try:
+                db = gffutils.create_db(new_text, dbfn, from_string=True, force=True)
+                db.conn.close()
+            except Exception as ex:
+                ctx.violation(case, {"why": "create_db(force=True) on an existing database raised %r" % (ex,), "path": dbfn,
+                                     "files_after": tree_listing(top)})
+                return
+            if not os.path.exists(dbfn):
+                ctx.violation(case, {"why": "after create_db(force=True) there is no database at the given path", "path": dbfn,
+                                     "files_after": tree_listing(top)})
+                return
+            gffutils.create_db(new_text, solo, from_string=True).conn.close()
+            try:
+                got = dump_any(dbfn)
+            except Exception as ex:
+                ctx.violation(case, {"why": "the file at the given path is not a readable database after create_db(force=True): %r" % (ex,),
+                                     "path": dbfn})
+                return
+            ctx.mon("force imports at a path with special characters compared with solitary import")
+            d = dbdump.diff(dbdump.dump(solo), got)
+            if d:
+                ctx.violation(case, {"why": "create_db(force=True) result differs from a solitary import of the new input", "diff": d,
+                                     "path": dbfn})
+                return
+            # the property's own observation: reopening the given path through gffutils shows the new input and nothing old
+            try:
+                db2 = gffutils.FeatureDB(dbfn)
+                seen = set(f.id for f in db2.all_features())
+                db2.conn.close()
+            except Exception as ex:
+                ctx.violation(case, {"why": "reopening the forced database with FeatureDB raised %r" % (ex,), "path": dbfn})
+                return
+            ctx.mon("forced databases reopened through FeatureDB at a path with special characters")
+            want = set(f["id"] for f in got["features"])     # == the solitary import's ids (compared above)
+            if seen != want:
+                ctx.violation(case, {"why": "FeatureDB on the forced path shows other features than the new input",
+                                     "old_ids_seen": sorted((seen - want) & old_ids)[:5], "path": dbfn})
+    finally:
+        import shutil as _sh
+        _sh.rmtree(top, ignore_errors=True)
+        for p_ in (solo,):
+            if os.path.exists(p_):
+                os.unlink(p_)
 
 
 ABANDON = [False]      # set per call: generators are left suspended after their first item instead of being drained
@@ -482,6 +619,18 @@ def run(ctx):
                 "pragmas_history": rng.choice([None, None, None, "wal", "other"])}
         execute(ctx, case)
         ctx.case(("pair", case), case["disjoint"], sample=case, cls="pair force=%s" % case["force"])
+    # the existing database sits at a path with characters that are special to some layer (URI, shell, SQL, format strings)
+    for _ in range(ctx.budget(160, 4000)):
+        where = rng.choice(["file", "file", "dir", "both"])
+        case = {"kind": "pair_path", "old_seed": rng.randrange(10 ** 6), "new_seed": rng.randrange(10 ** 6),
+                "old_fmt": rng.choice(["gff3", "gtf"]), "new_fmt": rng.choice(["gff3", "gtf"]),
+                "dirname": odd_name(rng, rng.choice(["", ".d"])) if where in ("dir", "both") else "",
+                "fname": odd_name(rng, rng.choice([".db", ".db", "", ".sqlite"])) if where in ("file", "both") else "annotation.db",
+                "old_made": rng.choice(["in place", "moved"]), "force": rng.random() < 0.6, "force_only": rng.random() < 0.3,
+                "force_kw": rng.choice(["absent", "False"])}
+        execute(ctx, case)
+        ctx.case(("pair_path", case), True, sample=case if rng.random() < 0.1 else None,
+                 cls="pair at a path with special characters (%s name)" % where)
     # a database that another connection holds locked (each attempt waits for sqlite3's busy timeout, so only a few)
     for _ in range(1 if ctx.tier == "quick" else 6):
         case = {"kind": "pair", "old_seed": rng.randrange(10 ** 6), "new_seed": rng.randrange(10 ** 6), "old_fmt": "gff3",
